@@ -9,11 +9,12 @@ for k in $ids; do
   wt=$dir/$k
   [ -f "$wt/meta.txt" ] && [ -d "$wt/tests" ] || continue
   [ -f seeded/$k$suf/meta.json ] && continue
+  prop=$(printf %s "$k" | cut -c1-3)
   ok=no
   for flags in "" "--no-default-features" "--no-default-features --features alloc"; do
-    if tools/ingest_mutant.sh "$wt" "$k$suf" "$k" $flags > /tmp/ingest-$k.log 2>&1; then ok="yes[$flags]"; break; fi
+    if tools/ingest_mutant.sh "$wt" "$k$suf" "$prop" $flags > /tmp/ingest-$k.log 2>&1; then ok="yes[$flags]"; break; fi
   done
   git -C /repo worktree remove --force "$wt" 2>/dev/null
-  res=$(tools/try_mutant.sh seeded/$k$suf/patch.diff $k 2>&1 | grep -E "^VIOLATION|violations," | head -2 | tr '\n' ' ')
+  res=$(tools/try_mutant.sh seeded/$k$suf/patch.diff $prop 2>&1 | grep -E "^VIOLATION|violations," | head -2 | tr '\n' ' ')
   echo "$k$suf confirmed=$ok :: $res"
 done
